@@ -299,7 +299,7 @@ impl Report {
     }
 
     /// Writes everything and returns the process exit code.
-    pub fn finish(mut self) -> i32 {
+    pub fn finish(self) -> i32 {
         let root = verif_root();
         let known = load_known_findings();
         let wall = self.start.elapsed().as_secs_f64();
